@@ -9,6 +9,7 @@ package hash
 import (
 	"hash"
 	"hash/fnv"
+	"sync"
 	"unsafe"
 )
 
@@ -18,6 +19,9 @@ type Hasher interface {
 }
 
 // HashFunc defines a generic function type for hashing a key of type K.
+//
+// The functions returned by the HashFuncFor... constructors reuse one hash.Hash64 (and byte buffer) for all calls
+// and serialize access to it, so they are safe for concurrent use by multiple goroutines.
 type HashFunc[T any] func(T) uint64
 
 func ensureHasher(h hash.Hash64) hash.Hash64 {
@@ -31,9 +35,12 @@ func ensureHasher(h hash.Hash64) hash.Hash64 {
 // If h is nil, a default hash.Hash64 implementation will be used.
 func HashFuncForBool[T ~bool](h hash.Hash64) HashFunc[T] {
 	h = ensureHasher(h)
+	var mu sync.Mutex // guards the hasher state shared by all calls of the returned function
 	b := make([]byte, 1)
 
 	return func(v T) uint64 {
+		mu.Lock()
+		defer mu.Unlock()
 		h.Reset()
 
 		if v {
@@ -52,8 +59,11 @@ func HashFuncForBool[T ~bool](h hash.Hash64) HashFunc[T] {
 // If h is nil, a default hash.Hash64 implementation will be used.
 func HashFuncForBoolSlice[T ~[]bool](h hash.Hash64) HashFunc[T] {
 	h = ensureHasher(h)
+	var mu sync.Mutex // guards the hasher state shared by all calls of the returned function
 
 	return func(v T) uint64 {
+		mu.Lock()
+		defer mu.Unlock()
 		h.Reset()
 
 		b := make([]byte, len(v))
@@ -75,9 +85,12 @@ func HashFuncForBoolSlice[T ~[]bool](h hash.Hash64) HashFunc[T] {
 // If h is nil, a default hash.Hash64 implementation will be used.
 func HashFuncForInt8[T ~int8](h hash.Hash64) HashFunc[T] {
 	h = ensureHasher(h)
+	var mu sync.Mutex // guards the hasher state shared by all calls of the returned function
 	b := make([]byte, 1)
 
 	return func(v T) uint64 {
+		mu.Lock()
+		defer mu.Unlock()
 		h.Reset()
 
 		// Little-endian
@@ -93,8 +106,11 @@ func HashFuncForInt8[T ~int8](h hash.Hash64) HashFunc[T] {
 // If h is nil, a default hash.Hash64 implementation will be used.
 func HashFuncForInt8Slice[T ~[]int8](h hash.Hash64) HashFunc[T] {
 	h = ensureHasher(h)
+	var mu sync.Mutex // guards the hasher state shared by all calls of the returned function
 
 	return func(v T) uint64 {
+		mu.Lock()
+		defer mu.Unlock()
 		h.Reset()
 
 		b := make([]byte, len(v))
@@ -113,9 +129,12 @@ func HashFuncForInt8Slice[T ~[]int8](h hash.Hash64) HashFunc[T] {
 // If h is nil, a default hash.Hash64 implementation will be used.
 func HashFuncForInt16[T ~int16](h hash.Hash64) HashFunc[T] {
 	h = ensureHasher(h)
+	var mu sync.Mutex // guards the hasher state shared by all calls of the returned function
 	b := make([]byte, 2)
 
 	return func(v T) uint64 {
+		mu.Lock()
+		defer mu.Unlock()
 		h.Reset()
 
 		// Little-endian
@@ -132,8 +151,11 @@ func HashFuncForInt16[T ~int16](h hash.Hash64) HashFunc[T] {
 // If h is nil, a default hash.Hash64 implementation will be used.
 func HashFuncForInt16Slice[T ~[]int16](h hash.Hash64) HashFunc[T] {
 	h = ensureHasher(h)
+	var mu sync.Mutex // guards the hasher state shared by all calls of the returned function
 
 	return func(v T) uint64 {
+		mu.Lock()
+		defer mu.Unlock()
 		h.Reset()
 
 		b := make([]byte, 2*len(v))
@@ -153,9 +175,12 @@ func HashFuncForInt16Slice[T ~[]int16](h hash.Hash64) HashFunc[T] {
 // If h is nil, a default hash.Hash64 implementation will be used.
 func HashFuncForInt32[T ~int32](h hash.Hash64) HashFunc[T] {
 	h = ensureHasher(h)
+	var mu sync.Mutex // guards the hasher state shared by all calls of the returned function
 	b := make([]byte, 4)
 
 	return func(v T) uint64 {
+		mu.Lock()
+		defer mu.Unlock()
 		h.Reset()
 
 		// Little-endian
@@ -174,8 +199,11 @@ func HashFuncForInt32[T ~int32](h hash.Hash64) HashFunc[T] {
 // If h is nil, a default hash.Hash64 implementation will be used.
 func HashFuncForInt32Slice[T ~[]int32](h hash.Hash64) HashFunc[T] {
 	h = ensureHasher(h)
+	var mu sync.Mutex // guards the hasher state shared by all calls of the returned function
 
 	return func(v T) uint64 {
+		mu.Lock()
+		defer mu.Unlock()
 		h.Reset()
 
 		b := make([]byte, 4*len(v))
@@ -197,9 +225,12 @@ func HashFuncForInt32Slice[T ~[]int32](h hash.Hash64) HashFunc[T] {
 // If h is nil, a default hash.Hash64 implementation will be used.
 func HashFuncForInt64[T ~int64](h hash.Hash64) HashFunc[T] {
 	h = ensureHasher(h)
+	var mu sync.Mutex // guards the hasher state shared by all calls of the returned function
 	b := make([]byte, 8)
 
 	return func(v T) uint64 {
+		mu.Lock()
+		defer mu.Unlock()
 		h.Reset()
 
 		// Little-endian
@@ -222,8 +253,11 @@ func HashFuncForInt64[T ~int64](h hash.Hash64) HashFunc[T] {
 // If h is nil, a default hash.Hash64 implementation will be used.
 func HashFuncForInt64Slice[T ~[]int64](h hash.Hash64) HashFunc[T] {
 	h = ensureHasher(h)
+	var mu sync.Mutex // guards the hasher state shared by all calls of the returned function
 
 	return func(v T) uint64 {
+		mu.Lock()
+		defer mu.Unlock()
 		h.Reset()
 
 		b := make([]byte, 8*len(v))
@@ -249,12 +283,15 @@ func HashFuncForInt64Slice[T ~[]int64](h hash.Hash64) HashFunc[T] {
 // If h is nil, a default hash.Hash64 implementation will be used.
 func HashFuncForInt[T ~int](h hash.Hash64) HashFunc[T] {
 	h = ensureHasher(h)
+	var mu sync.Mutex // guards the hasher state shared by all calls of the returned function
 
 	var v T
 	size := int(unsafe.Sizeof(v))
 	b := make([]byte, size)
 
 	return func(v T) uint64 {
+		mu.Lock()
+		defer mu.Unlock()
 		h.Reset()
 
 		// Little-endian
@@ -272,11 +309,14 @@ func HashFuncForInt[T ~int](h hash.Hash64) HashFunc[T] {
 // If h is nil, a default hash.Hash64 implementation will be used.
 func HashFuncForIntSlice[T ~[]int](h hash.Hash64) HashFunc[T] {
 	h = ensureHasher(h)
+	var mu sync.Mutex // guards the hasher state shared by all calls of the returned function
 
 	var v T
 	size := int(unsafe.Sizeof(v))
 
 	return func(v T) uint64 {
+		mu.Lock()
+		defer mu.Unlock()
 		h.Reset()
 
 		b := make([]byte, size*len(v))
@@ -297,9 +337,12 @@ func HashFuncForIntSlice[T ~[]int](h hash.Hash64) HashFunc[T] {
 // If h is nil, a default hash.Hash64 implementation will be used.
 func HashFuncForUint8[T ~uint8](h hash.Hash64) HashFunc[T] {
 	h = ensureHasher(h)
+	var mu sync.Mutex // guards the hasher state shared by all calls of the returned function
 	b := make([]byte, 1)
 
 	return func(v T) uint64 {
+		mu.Lock()
+		defer mu.Unlock()
 		h.Reset()
 
 		// Little-endian
@@ -315,8 +358,11 @@ func HashFuncForUint8[T ~uint8](h hash.Hash64) HashFunc[T] {
 // If h is nil, a default hash.Hash64 implementation will be used.
 func HashFuncForUint8Slice[T ~[]uint8](h hash.Hash64) HashFunc[T] {
 	h = ensureHasher(h)
+	var mu sync.Mutex // guards the hasher state shared by all calls of the returned function
 
 	return func(v T) uint64 {
+		mu.Lock()
+		defer mu.Unlock()
 		h.Reset()
 
 		b := make([]byte, len(v))
@@ -335,9 +381,12 @@ func HashFuncForUint8Slice[T ~[]uint8](h hash.Hash64) HashFunc[T] {
 // If h is nil, a default hash.Hash64 implementation will be used.
 func HashFuncForUint16[T ~uint16](h hash.Hash64) HashFunc[T] {
 	h = ensureHasher(h)
+	var mu sync.Mutex // guards the hasher state shared by all calls of the returned function
 	b := make([]byte, 2)
 
 	return func(v T) uint64 {
+		mu.Lock()
+		defer mu.Unlock()
 		h.Reset()
 
 		// Little-endian
@@ -354,8 +403,11 @@ func HashFuncForUint16[T ~uint16](h hash.Hash64) HashFunc[T] {
 // If h is nil, a default hash.Hash64 implementation will be used.
 func HashFuncForUint16Slice[T ~[]uint16](h hash.Hash64) HashFunc[T] {
 	h = ensureHasher(h)
+	var mu sync.Mutex // guards the hasher state shared by all calls of the returned function
 
 	return func(v T) uint64 {
+		mu.Lock()
+		defer mu.Unlock()
 		h.Reset()
 
 		b := make([]byte, 2*len(v))
@@ -375,9 +427,12 @@ func HashFuncForUint16Slice[T ~[]uint16](h hash.Hash64) HashFunc[T] {
 // If h is nil, a default hash.Hash64 implementation will be used.
 func HashFuncForUint32[T ~uint32](h hash.Hash64) HashFunc[T] {
 	h = ensureHasher(h)
+	var mu sync.Mutex // guards the hasher state shared by all calls of the returned function
 	b := make([]byte, 4)
 
 	return func(v T) uint64 {
+		mu.Lock()
+		defer mu.Unlock()
 		h.Reset()
 
 		// Little-endian
@@ -396,8 +451,11 @@ func HashFuncForUint32[T ~uint32](h hash.Hash64) HashFunc[T] {
 // If h is nil, a default hash.Hash64 implementation will be used.
 func HashFuncForUint32Slice[T ~[]uint32](h hash.Hash64) HashFunc[T] {
 	h = ensureHasher(h)
+	var mu sync.Mutex // guards the hasher state shared by all calls of the returned function
 
 	return func(v T) uint64 {
+		mu.Lock()
+		defer mu.Unlock()
 		h.Reset()
 
 		b := make([]byte, 4*len(v))
@@ -419,9 +477,12 @@ func HashFuncForUint32Slice[T ~[]uint32](h hash.Hash64) HashFunc[T] {
 // If h is nil, a default hash.Hash64 implementation will be used.
 func HashFuncForUint64[T ~uint64](h hash.Hash64) HashFunc[T] {
 	h = ensureHasher(h)
+	var mu sync.Mutex // guards the hasher state shared by all calls of the returned function
 	b := make([]byte, 8)
 
 	return func(v T) uint64 {
+		mu.Lock()
+		defer mu.Unlock()
 		h.Reset()
 
 		// Little-endian
@@ -444,8 +505,11 @@ func HashFuncForUint64[T ~uint64](h hash.Hash64) HashFunc[T] {
 // If h is nil, a default hash.Hash64 implementation will be used.
 func HashFuncForUint64Slice[T ~[]uint64](h hash.Hash64) HashFunc[T] {
 	h = ensureHasher(h)
+	var mu sync.Mutex // guards the hasher state shared by all calls of the returned function
 
 	return func(v T) uint64 {
+		mu.Lock()
+		defer mu.Unlock()
 		h.Reset()
 
 		b := make([]byte, 8*len(v))
@@ -471,12 +535,15 @@ func HashFuncForUint64Slice[T ~[]uint64](h hash.Hash64) HashFunc[T] {
 // If h is nil, a default hash.Hash64 implementation will be used.
 func HashFuncForUintptr[T ~uintptr](h hash.Hash64) HashFunc[T] {
 	h = ensureHasher(h)
+	var mu sync.Mutex // guards the hasher state shared by all calls of the returned function
 
 	var v T
 	size := int(unsafe.Sizeof(v))
 	b := make([]byte, size)
 
 	return func(v T) uint64 {
+		mu.Lock()
+		defer mu.Unlock()
 		h.Reset()
 
 		// Little-endian
@@ -494,11 +561,14 @@ func HashFuncForUintptr[T ~uintptr](h hash.Hash64) HashFunc[T] {
 // If h is nil, a default hash.Hash64 implementation will be used.
 func HashFuncForUintptrSlice[T ~[]uintptr](h hash.Hash64) HashFunc[T] {
 	h = ensureHasher(h)
+	var mu sync.Mutex // guards the hasher state shared by all calls of the returned function
 
 	var v T
 	size := int(unsafe.Sizeof(v))
 
 	return func(v T) uint64 {
+		mu.Lock()
+		defer mu.Unlock()
 		h.Reset()
 
 		b := make([]byte, size*len(v))
@@ -519,12 +589,15 @@ func HashFuncForUintptrSlice[T ~[]uintptr](h hash.Hash64) HashFunc[T] {
 // If h is nil, a default hash.Hash64 implementation will be used.
 func HashFuncForUint[T ~uint](h hash.Hash64) HashFunc[T] {
 	h = ensureHasher(h)
+	var mu sync.Mutex // guards the hasher state shared by all calls of the returned function
 
 	var v T
 	size := int(unsafe.Sizeof(v))
 	b := make([]byte, size)
 
 	return func(v T) uint64 {
+		mu.Lock()
+		defer mu.Unlock()
 		h.Reset()
 
 		// Little-endian
@@ -542,11 +615,14 @@ func HashFuncForUint[T ~uint](h hash.Hash64) HashFunc[T] {
 // If h is nil, a default hash.Hash64 implementation will be used.
 func HashFuncForUintSlice[T ~[]uint](h hash.Hash64) HashFunc[T] {
 	h = ensureHasher(h)
+	var mu sync.Mutex // guards the hasher state shared by all calls of the returned function
 
 	var v T
 	size := int(unsafe.Sizeof(v))
 
 	return func(v T) uint64 {
+		mu.Lock()
+		defer mu.Unlock()
 		h.Reset()
 
 		b := make([]byte, size*len(v))
@@ -567,9 +643,12 @@ func HashFuncForUintSlice[T ~[]uint](h hash.Hash64) HashFunc[T] {
 // If h is nil, a default hash.Hash64 implementation will be used.
 func HashFuncForFloat32[T ~float32](h hash.Hash64) HashFunc[T] {
 	h = ensureHasher(h)
+	var mu sync.Mutex // guards the hasher state shared by all calls of the returned function
 	b := make([]byte, 4)
 
 	return func(f T) uint64 {
+		mu.Lock()
+		defer mu.Unlock()
 		h.Reset()
 
 		// The IEEE 754 binary representation of f,
@@ -592,8 +671,11 @@ func HashFuncForFloat32[T ~float32](h hash.Hash64) HashFunc[T] {
 // If h is nil, a default hash.Hash64 implementation will be used.
 func HashFuncForFloat32Slice[T ~[]float32](h hash.Hash64) HashFunc[T] {
 	h = ensureHasher(h)
+	var mu sync.Mutex // guards the hasher state shared by all calls of the returned function
 
 	return func(f T) uint64 {
+		mu.Lock()
+		defer mu.Unlock()
 		h.Reset()
 
 		b := make([]byte, 4*len(f))
@@ -619,9 +701,12 @@ func HashFuncForFloat32Slice[T ~[]float32](h hash.Hash64) HashFunc[T] {
 // If h is nil, a default hash.Hash64 implementation will be used.
 func HashFuncForFloat64[T ~float64](h hash.Hash64) HashFunc[T] {
 	h = ensureHasher(h)
+	var mu sync.Mutex // guards the hasher state shared by all calls of the returned function
 	b := make([]byte, 8)
 
 	return func(f T) uint64 {
+		mu.Lock()
+		defer mu.Unlock()
 		h.Reset()
 
 		// The IEEE 754 binary representation of f,
@@ -648,8 +733,11 @@ func HashFuncForFloat64[T ~float64](h hash.Hash64) HashFunc[T] {
 // If h is nil, a default hash.Hash64 implementation will be used.
 func HashFuncForFloat64Slice[T ~[]float64](h hash.Hash64) HashFunc[T] {
 	h = ensureHasher(h)
+	var mu sync.Mutex // guards the hasher state shared by all calls of the returned function
 
 	return func(f T) uint64 {
+		mu.Lock()
+		defer mu.Unlock()
 		h.Reset()
 
 		b := make([]byte, 8*len(f))
@@ -679,9 +767,12 @@ func HashFuncForFloat64Slice[T ~[]float64](h hash.Hash64) HashFunc[T] {
 // If h is nil, a default hash.Hash64 implementation will be used.
 func HashFuncForComplex64[T ~complex64](h hash.Hash64) HashFunc[T] {
 	h = ensureHasher(h)
+	var mu sync.Mutex // guards the hasher state shared by all calls of the returned function
 	b := make([]byte, 8)
 
 	return func(c T) uint64 {
+		mu.Lock()
+		defer mu.Unlock()
 		h.Reset()
 
 		c64 := complex64(c)
@@ -711,8 +802,11 @@ func HashFuncForComplex64[T ~complex64](h hash.Hash64) HashFunc[T] {
 // If h is nil, a default hash.Hash64 implementation will be used.
 func HashFuncForComplex64Slice[T ~[]complex64](h hash.Hash64) HashFunc[T] {
 	h = ensureHasher(h)
+	var mu sync.Mutex // guards the hasher state shared by all calls of the returned function
 
 	return func(c T) uint64 {
+		mu.Lock()
+		defer mu.Unlock()
 		h.Reset()
 
 		b := make([]byte, 8*len(c))
@@ -745,9 +839,12 @@ func HashFuncForComplex64Slice[T ~[]complex64](h hash.Hash64) HashFunc[T] {
 // If h is nil, a default hash.Hash64 implementation will be used.
 func HashFuncForComplex128[T ~complex128](h hash.Hash64) HashFunc[T] {
 	h = ensureHasher(h)
+	var mu sync.Mutex // guards the hasher state shared by all calls of the returned function
 	b := make([]byte, 16)
 
 	return func(c T) uint64 {
+		mu.Lock()
+		defer mu.Unlock()
 		h.Reset()
 
 		c128 := complex128(c)
@@ -785,8 +882,11 @@ func HashFuncForComplex128[T ~complex128](h hash.Hash64) HashFunc[T] {
 // If h is nil, a default hash.Hash64 implementation will be used.
 func HashFuncForComplex128Slice[T ~[]complex128](h hash.Hash64) HashFunc[T] {
 	h = ensureHasher(h)
+	var mu sync.Mutex // guards the hasher state shared by all calls of the returned function
 
 	return func(c T) uint64 {
+		mu.Lock()
+		defer mu.Unlock()
 		h.Reset()
 
 		b := make([]byte, 16*len(c))
@@ -827,8 +927,11 @@ func HashFuncForComplex128Slice[T ~[]complex128](h hash.Hash64) HashFunc[T] {
 // If h is nil, a default hash.Hash64 implementation will be used.
 func HashFuncForString[T ~string](h hash.Hash64) HashFunc[T] {
 	h = ensureHasher(h)
+	var mu sync.Mutex // guards the hasher state shared by all calls of the returned function
 
 	return func(s T) uint64 {
+		mu.Lock()
+		defer mu.Unlock()
 		h.Reset()
 
 		// Hash.Write never returns an error
@@ -841,8 +944,11 @@ func HashFuncForString[T ~string](h hash.Hash64) HashFunc[T] {
 // If h is nil, a default hash.Hash64 implementation will be used.
 func HashFuncForStringSlice[T ~[]string](h hash.Hash64) HashFunc[T] {
 	h = ensureHasher(h)
+	var mu sync.Mutex // guards the hasher state shared by all calls of the returned function
 
 	return func(s T) uint64 {
+		mu.Lock()
+		defer mu.Unlock()
 		h.Reset()
 
 		for _, x := range s {
